@@ -15,10 +15,10 @@
    and by [run_dcases] (arbitrary bytes, bercorr -mode dec):
      6  dec (model) <> outcome of Go Unmarshal                     (correspondence)
      7  C16 monitor on the implementation: Go panicked or did not terminate
-     71 C16 monitor: input whose outer identifier is not the one the target type
-        requires was accepted instead of reported as an error (known-finding class) *)
+     71 C16 monitor: input whose identifier octets are not the ones the target type and
+        parameters require (WrongType.expected) was accepted instead of reported as an error *)
 From Coq Require Import List ZArith Bool.
-From Verif Require Import Common.Outcome Common.Bytes Ber.Model Ber.X690.
+From Verif Require Import Common.Outcome Common.Bytes Ber.Model Ber.X690 Ber.WrongType.
 Import ListNotations.
 Open Scope Z_scope.
 
@@ -109,29 +109,6 @@ Fixpoint uses_untagged (t : ty) (v : value) {struct t} : bool :=
   | _, _ => false
   end.
 
-(* identifier (class, number) the first element must carry for (t, p) *)
-Fixpoint tag_expected (t : ty) (p : fparams) (cls tn : Z) {struct t} : bool :=
-  match p_tag p with
-  | Some n => (cls =? 2) && (tn =? n)
-  | None =>
-    match t with
-    | TBool => (cls =? 0) && (tn =? 1)
-    | TInt => (cls =? 0) && (tn =? 2)
-    | TBits => (cls =? 0) && (tn =? 3)
-    | TOctets => (cls =? 0) && (tn =? 4)
-    | TNull => (cls =? 0) && (tn =? 5)
-    | TOid => (cls =? 0) && (tn =? 6)
-    | TEnum => (cls =? 0) && (tn =? 10)
-    | TString k => (cls =? 0) && (tn =? (if p_strtype p =? 0 then k else p_strtype p))
-    | TPtr t' | TWrap t' => tag_expected t' p cls tn
-    | TSeq _ | TSlice _ => (cls =? 0) && (tn =? (if p_set p then 17 else 16))
-    | TChoice l =>
-      (fix go (l : list (fparams * ty)) : bool :=
-         match l with [] => false | (fp, ft) :: r => tag_expected ft fp cls tn || go r end) l
-    | TUnsupported => false
-    end
-  end.
-
 Record bcase := mkBcase {
   bc_id : Z; bc_ty : ty; bc_p : fparams; bc_v : value;
   bc_enc : outcome (list Z); bc_dec : outcome value }.
@@ -167,12 +144,11 @@ Definition check_dcase (c : dcase) : list (Z * Z) :=
   match dc_out c with
   | Panic | OutOfFuel => [(i, 7)]
   | Ok _ =>
-    match dc_bytes c with
-    | b0 :: _ =>
-      (* wrongly-typed input must be an error (outer identifier only; low tag numbers) *)
-      if (b0 mod 32 <? 31) && negb (tag_expected (dc_ty c) (dc_p c) (b0 / 64) (b0 mod 32))
-      then [(i, 71)] else []
-    | [] => [(i, 71)]
+    (* wrongly-typed input must be an error: the identifier the input starts with is the one
+       the type and parameters call for ([expected], the specification of Ber/WrongType.v) *)
+    match parse_tl (dc_bytes c) with
+    | Ok (tl, _) => if expected (dc_ty c) (dc_p c) tl then [] else [(i, 71)]
+    | _ => [(i, 71)]
     end
   | _ => []
   end.
